@@ -52,7 +52,7 @@ def import_closure(roots):
 
 # property theorems that live in a continuation file (the lemma files they rest on import Props/<pid>.lean)
 EXTRA_PROPS = {'C01': ['DenseAll'], 'C10': ['C10World'], 'C04': ['C04Kernels'], 'C13': ['C13Kernels', 'C13Dense'], 'C17': ['C17Kernels'],
-               'C12': ['C12Dense'], 'C06': ['C06Dense'], 'C11': ['C11Dense']}
+               'C12': ['C12Dense'], 'C06': ['C06Dense'], 'C11': ['C11Dense'], 'C03': ['DenseIO'], 'C14': ['C14Dense']}
 
 
 def prop_modules(pid):
